@@ -11,6 +11,7 @@ import (
 	"io"
 	"net/http"
 	"net/http/httptest"
+	"sort"
 	"strings"
 	"sync"
 	"time"
@@ -223,24 +224,27 @@ func main() {
 	// show up as another request's code or body)
 	concurrentBatch := func(d, c cfgval, goroutines, calls int) {
 		be := &config.Backend{Encoding: encoding.JSON, Decoder: encoding.JSONDecoder, ExtraConfig: extra(d, c)}
-		replyOf := func(g, k int) reply {
-			code := 100 + (g*131+k*17)%500
-			if (g+k)%5 == 0 {
-				code = 200 + (g+k)%2
+		// a small set of distinct replies hit over and over: every distinct (reply, observation)
+		// pair is emitted once, so a run without interference yields exactly one case per reply
+		const distinct = 24
+		replyOf := func(j int) reply {
+			code := 100 + (j*137)%500
+			if j%6 == 0 {
+				code = 200 + (j/6)%2
 			}
-			b := bodies[(g+k)%len(bodies)]
+			b := bodies[j%len(bodies)]
 			body := b.body
 			if strings.HasPrefix(body, "{\"a\"") {
-				body = fmt.Sprintf(`{"a":%d,"secret":"MARKER-%d-%d"}`, g*1000+k, g, k)
+				body = fmt.Sprintf(`{"a":%d,"secret":"MARKER-%d"}`, j, j)
 			} else if b.enc == "text/plain" {
-				body = fmt.Sprintf("MARKER-plain-%d-%d", g, k)
+				body = fmt.Sprintf("MARKER-plain-%d", j)
 			}
 			return reply{code, body, b.enc}
 		}
 		exec := func(_ context.Context, req *http.Request) (*http.Response, error) {
-			var g, k int
-			fmt.Sscanf(req.URL.Path, "/c/%d/%d", &g, &k)
-			r := replyOf(g, k)
+			var j int
+			fmt.Sscanf(req.URL.Path, "/c/%d", &j)
+			r := replyOf(j)
 			h := http.Header{}
 			if r.enc != "" {
 				h.Set("Content-Type", r.enc)
@@ -248,27 +252,46 @@ func main() {
 			return &http.Response{StatusCode: r.code, Header: h, Body: io.NopCloser(strings.NewReader(r.body))}, nil
 		}
 		p := proxy.NewHTTPProxyWithHTTPExecutor(be, exec, be.Decoder)
-		res := make([][]pobs, goroutines)
+		type seenT struct {
+			j int
+			o pobs
+		}
+		res := make([]map[string]seenT, goroutines)
 		start := make(chan struct{})
 		var wg sync.WaitGroup
 		for g := 0; g < goroutines; g++ {
-			res[g] = make([]pobs, calls)
+			res[g] = map[string]seenT{}
 			wg.Add(1)
 			go func(g int) {
 				defer wg.Done()
 				<-start
 				for k := 0; k < calls; k++ {
-					res[g][k] = observe(p, replyOf(g, k), fmt.Sprintf("http://h/c/%d/%d", g, k))
+					j := (g*7 + k) % distinct
+					o := observe(p, replyOf(j), fmt.Sprintf("http://h/c/%d", j))
+					key := fmt.Sprintf("%03d|%s|%s", j, o.obs, o.ec)
+					if _, ok := res[g][key]; !ok {
+						res[g][key] = seenT{j, o}
+					}
 				}
 			}(g)
 		}
 		close(start)
 		wg.Wait()
+		all := map[string]seenT{}
 		for g := 0; g < goroutines; g++ {
-			for k := 0; k < calls; k++ {
-				emitProxy(d, c, replyOf(g, k), res[g][k], "proxy-concurrent")
+			for k, v := range res[g] {
+				all[k] = v
 			}
 		}
+		keys := make([]string, 0, len(all))
+		for k := range all {
+			keys = append(keys, k)
+		}
+		sort.Strings(keys)
+		for _, k := range keys {
+			emitProxy(d, c, replyOf(all[k].j), all[k].o, "proxy-concurrent")
+		}
+		w.Count(fmt.Sprintf("concurrent-calls:%d", goroutines*calls))
 	}
 	for code := 100; code <= 599; code++ {
 		for mi, m := range [][2]cfgval{{detailsVals[0], codeVals[0]}, {detailsVals[0], codeVals[1]}, {detailsVals[2], codeVals[0]}} {
@@ -293,9 +316,9 @@ func main() {
 
 	// ---- proxy level, one proxy shared by concurrent in-flight requests ----
 	{
-		g, k := 8, 12
+		g, k := 16, 4000
 		if cfg.Thorough() {
-			g, k = 16, 60
+			g, k = 32, 40000
 		}
 		for _, m := range [][2]cfgval{{detailsVals[0], codeVals[0]}, {detailsVals[0], codeVals[1]}, {detailsVals[2], codeVals[0]}} {
 			concurrentBatch(m[0], m[1], g, k)
